@@ -15,6 +15,9 @@ import PsutilModel.Proofs.C13Regex
 import PsutilModel.Proofs.C13Rollup
 import PsutilModel.Proofs.C13Inherit
 import PsutilModel.Proofs.C13Pct
+import PsutilModel.Proofs.C13Fine
+import PsutilModel.Proofs.C13Hist
+import PsutilModel.Proofs.C13GroupSpec
 import PsutilModel.Model.C13Gen
 namespace Psutil.C13
 open Psutil Psutil.C13.Spec Psutil.C13.Re
@@ -32,7 +35,9 @@ theorem regex_facts :
     Gen.C13.privateRe = "\\nPrivate.*:\\s+(\\d+)" ∧ Gen.C13.pssRe = "\\nPss\\:\\s+(\\d+)"
       ∧ Gen.C13.swapRe = "\\nSwap\\:\\s+(\\d+)" := by decide
 
-/-- layout of the result tuples and of the front-end grouping loop -/
+/-- SOURCE PINS (not consumed by the model, which hard-codes `splitWsN 5`, `r.path`, `r.nums`):
+    layout of the result tuples and of the front-end grouping loop; `fallbackExcs` IS consumed
+    (`cfg.fallbackEnoent` / `cfg.fallbackEsrch`, obligations in `cfg_good`) and pinned here whole -/
 theorem field_facts :
     Gen.C13.pmmapExtFields = extNames ∧ Gen.C13.pmmapGroupedFields = groupedNames
       ∧ Gen.C13.groupPathIdx = 2 ∧ Gen.C13.groupNumsFrom = 3 ∧ Gen.C13.mapsMaxsplit = 5
@@ -49,14 +54,67 @@ theorem decorator_facts :
        ("Process.memory_info", ["memoize_when_activated"]), ("Process.memory_full_info", []),
        ("Process.memory_maps", []), ("Process.memory_percent", [])] := by decide
 
+/-- EVERY statement of `memory_maps`' named-mapping branch: decode, then the ` (deleted)` test — and
+    nothing else (no `strip()`, no `else:`, no second statement under the `if`). `cfg.stripsPath`
+    (any text-changing call anywhere in the branch) is the part the model follows. -/
+theorem path_handling_facts :
+    Gen.C13.mapsPathStmts = ["path = decode(path)",
+      "if path.endswith(' (deleted)') and (not path_exists_strict(path)):\n    path = path[:-10]"] := rfl
+
+/-- EVERY top-level statement of `_pslinux.Process.memory_full_info`, in order: the smaps side
+    first, statm (`self.memory_info()`) after it (`cfg.basicFirst = false` is what the model follows). -/
+theorem full_info_body_facts :
+    Gen.C13.fullInfoStmts =
+      ["if HAS_PROC_SMAPS_ROLLUP:\n    try:\n        uss, pss, swap = self._parse_smaps_rollup()\n    except (ProcessLookupError, FileNotFoundError):\n        uss, pss, swap = self._parse_smaps()\nelse:\n    uss, pss, swap = self._parse_smaps()",
+       "basic_mem = self.memory_info()", "return pfullmem(*basic_mem + (uss, pss, swap))"] := rfl
+
+/-- the class-body guards as written, and where the page size comes from -/
+theorem class_guard_facts :
+    Gen.C13.fullInfoGuard = "HAS_PROC_SMAPS_ROLLUP or HAS_PROC_SMAPS"
+      ∧ Gen.C13.fullInfoElse = ["memory_full_info = memory_info"] ∧ Gen.C13.mapsGuard = "HAS_PROC_SMAPS"
+      ∧ Gen.C13.statmScale = "PAGESIZE" ∧ Gen.C13.pagesizeDef = "cext_posix.getpagesize()" := by decide
+
+/-- `_common.path_exists_strict` — the meaning of the model's `Probe`: `os.stat` succeeds →
+    `present`; PermissionError is re-raised (→ `denied`, AccessDenied through `@wrap_exceptions`);
+    any other OSError → `missing` -/
+theorem path_exists_facts :
+    Gen.C13.pathExistsStrict =
+      ["try:\n    os.stat(path)\nexcept PermissionError:\n    raise\nexcept OSError:\n    return False\nelse:\n    return True"] := rfl
+
+/-- digest of the normalised text of EVERY function the model transcribes: a statement none of the
+    fine-grained facts looks at cannot change unnoticed (the fine-grained facts say WHAT changed) -/
+theorem anchored_bodies_pinned :
+    Gen.C13.anchoredBodies =
+      [("_pslinux.Process.memory_info", "e5c222ca31c2145e"), ("_pslinux.Process._parse_smaps_rollup", "a6e31949e0f56a17"),
+       ("_pslinux.Process._parse_smaps", "8387011ec059274b"), ("_pslinux.Process._read_smaps_file", "fff8583be84a346f"),
+       ("_pslinux.Process.memory_full_info", "92715b65b1e5ba1b"), ("_pslinux.Process.memory_maps", "66e1502a4f93cc1d"),
+       ("_pslinux.virtual_memory", "e03a1b9bbfeef800"), ("Process.memory_maps", "83ab31c3b392d5e7"),
+       ("Process.memory_percent", "c5b0655536e3e206"), ("psutil.virtual_memory", "397c200a35e0acbf"),
+       ("_common.path_exists_strict", "689267e2a2b123d1")] := by decide
+
 /-! ## memory_info -/
 
 /-- **C13_statm.** For every statm record and page size, `memory_info()` is the kernel's page
-    counts × page size, in the order (rss, vms, shared, text, lib, data, dirty). -/
+    counts × page size, in the order (rss, vms, shared, text, lib, data, dirty). `pagesize` is the
+    SYSTEM's page size: the obligations `cfg_good.statmFixedScale` (the multiplier is the module
+    global `PAGESIZE`, not a literal) and `cfg_good.pagesizeFromSystem` (`PAGESIZE =
+    cext_posix.getpagesize()`) tie it; the harness takes its reference from `os.sysconf` and runs
+    every case with `_pslinux.PAGESIZE` set to 4 K, 16 K or 64 K. -/
 theorem C13_statm (pagesize : Nat) (r : Statm) :
     memoryInfo cfg pagesize (renderStatm r) = .ok (specMemInfo pagesize r)
       ∧ cfg.pmemFields = pmemNames :=
   ⟨statm_roundtrip cfg cfg_good pagesize r, cfg_good.pmemFields⟩
+
+/-- what-if: `int(x) * 4096` written into `memory_info` -/
+def fixedScaleCfg : Cfg := { cfg with statmFixedScale := some 4096 }
+
+/-- … then `C13_statm` is false on every machine with another page size (16 K: arm64, 64 K: ppc64):
+    one resident page is reported as 4096 bytes instead of 16384. -/
+theorem C13_statm_fixed_scale_counterexample :
+    (memoryInfo fixedScaleCfg 16384 [49, 32, 49, 32, 48, 32, 48, 32, 48, 32, 48, 32, 48, 10]).toOption   -- "1 1 0 0 0 0 0\n"
+        = some [4096, 4096, 0, 0, 0, 0, 0]
+      ∧ specMemInfo 16384 ⟨1, 1, 0, 0, 0, 0, 0⟩ = [16384, 16384, 0, 0, 0, 0, 0] := by
+  constructor <;> decide
 
 /-! ## memory_maps -/
 
@@ -116,6 +174,63 @@ theorem C13_empty_smaps_rendered (probe : Bytes → Probe) (zombie : Bool) :
     memoryMaps cfg probe zombie (renderSmaps []) = if zombie then .error .zombieProcess else .ok [] :=
   C13_empty_smaps probe zombie _ rfl
 
+
+/-! ## the file-system probe: what `fsConsistent` leaves out
+
+  `fsConsistent` (hypothesis of the round trips) says: the name printed for an unlinked file does
+  not exist, a file whose real name ends in ` (deleted)` does. The two reachable states outside
+  it are characterised here. -/
+
+/-- **C13_probe_outcomes.** For EVERY printed name that ends in ` (deleted)`: psutil asks
+    `path_exists_strict` about the whole printed name — PermissionError → AccessDenied; the name
+    exists → reported as printed; it does not → the last 10 characters are cut. (Names not ending
+    in the marker are reported as printed without any probe.) -/
+theorem C13_probe_outcomes (probe : Bytes → Probe) (p : Bytes) :
+    fixPath cfg probe p =
+      if endsWith deletedMarker p then
+        (match probe p with
+          | .denied => .error .accessDenied
+          | .present => .ok p
+          | .missing => .ok (p.take (p.length - 10)))
+      else .ok p := by
+  unfold fixPath
+  simp only [cfg_keeps_names, Bool.false_eq_true, if_false, cfg_good.deletedSuffix, cfg_good.deletedCut]
+  split <;> rfl
+
+/-- an unlinked `/a` with one key line -/
+def mDel : Mapping :=
+  { lo := 4096, hi := 8192, r := true, w := false, x := false, shared := false, off := 0, maj := 8,
+    min := 1, ino := 7, path := some [47, 97], deleted := true, kv := [⟨[82, 115, 115], 4, true⟩], flags := none }
+
+def excOf {α : Type} (r : Res α) : Option Exc := match r with | .error e => some e | .ok _ => none
+def pathsOf (r : Res (List Row)) : List Bytes := match r with | .ok rows => rows.map (·.path) | .error _ => []
+
+/-- **C13_maps_denied_witness.** EACCES on the probe (a directory on the way is not searchable for
+    the caller): `memory_maps()` of a process with an unlinked `/a` raises AccessDenied — the
+    whole call, not just the row. Outside `fsConsistent`; the property is silent on it. -/
+theorem C13_maps_denied_witness :
+    excOf (memoryMaps cfg (fun _ => .denied) false (renderSmaps [mDel])) = some .accessDenied := by
+  decide +kernel
+
+/-- the round trip WITHOUT the file-system hypothesis (only "the probe is never denied") -/
+def C13_maps_roundtrip_any_fs_Full : Prop :=
+  ∀ (probe : Bytes → Probe) (zombie : Bool) (ms : List Mapping), ms ≠ [] → wfSmaps false ms = true →
+    (∀ p, probe p ≠ .denied) →
+    memoryMaps cfg probe zombie (renderSmaps ms) = .ok (ms.map specRow)
+
+/-- **C13_maps_ambiguous_sibling_counterexample.** It is false: `/a` was unlinked while a file
+    literally named `/a (deleted)` exists — the kernel prints `/a (deleted)`, the probe finds the
+    sibling, psutil reports `/a (deleted)` where the mapping's file was `/a`. The kernel's text
+    is ambiguous here (the same line is printed for a mapping OF the sibling); no reader of
+    `/proc/pid/smaps` can do better — a stated limit, not a defect. -/
+theorem C13_maps_ambiguous_sibling_counterexample : ¬ C13_maps_roundtrip_any_fs_Full := by
+  intro h
+  have := congrArg pathsOf (h (fun _ => .present) false [mDel] (by simp) (by decide) (by intro p; simp))
+  revert this
+  decide +kernel
+
+example : fsConsistent (fun _ => .present) mDel = false ∧ fsConsistent (fun _ => .missing) mDel = true := by decide
+
 /-! ## memory_maps(grouped=True) -/
 
 /-- **C13_grouped_conservation.** The grouped view is the finite map
@@ -131,6 +246,30 @@ theorem C13_grouped_conservation (w : Nat) (rows : List Row) (hw : ∀ r ∈ row
 /-- … and there is exactly one row per distinct path. -/
 theorem C13_grouped_one_row_per_path (rows : List Row) : ((grouped rows).map (·.1)).Nodup :=
   grouped_nodup rows
+
+
+/-- **C13_grouped_is_specGrouped.** The grouped view IS `specGrouped` (the value the driver prints
+    as SPEC, built from `distinctPaths` and `specGroupedField`, not from the fold) as a finite map:
+    both list every distinct path once and agree on every path. Order is not promised (the harness
+    compares sorted). -/
+theorem C13_grouped_is_specGrouped (w : Nat) (rows : List Row) (hw : ∀ r ∈ rows, r.nums.length = w) :
+    (∀ p, (grouped rows).lookup p = (specGrouped w rows).lookup p)
+      ∧ ((grouped rows).map (·.1)).Nodup ∧ ((specGrouped w rows).map (·.1)).Nodup :=
+  ⟨fun p => (grouped_lookup w rows hw p).trans (specGrouped_lookup w rows p).symm, grouped_nodup rows, specGrouped_keys_nodup w rows⟩
+
+/-- … composed with clause 4: on every well-formed smaps file `memory_maps(grouped=True)` is the
+    finite map path ↦ field-wise sums of the PROMISED rows (`specRow`) of that path. -/
+theorem C13_grouped_end_to_end (probe : Bytes → Probe) (zombie : Bool) (ms : List Mapping)
+    (hne : ms ≠ []) (hwf : wfSmaps false ms = true) (hfs : ∀ m ∈ ms, fsConsistent probe m = true) (p : Bytes) :
+    (match memoryMaps cfg probe zombie (renderSmaps ms) with
+      | .ok rows => (grouped rows).lookup p
+      | .error _ => none)
+      = (specGrouped rowKeys.length (ms.map specRow)).lookup p := by
+  rw [C13_maps_roundtrip probe zombie ms hne hwf hfs]
+  exact ((C13_grouped_is_specGrouped rowKeys.length (ms.map specRow) (by
+    intro r hr
+    obtain ⟨m, _, rfl⟩ := List.mem_map.mp hr
+    simp [specRow])).1 p)
 
 /-! ## memory_percent -/
 
@@ -153,11 +292,14 @@ theorem C13_bad_memtype_ValueError (memtype : String) (info full : Res (List Nat
     memoryPercent cfg memtype info full cached vm = .error .valueError :=
   bad_memtype cfg cfg_good memtype info full cached vm h
 
-/-- CHARACTERISATION beyond the statement (which speaks of field NAMES, i.e. `str`): an argument
-    that is not a `str` at all (None, 3, b'rss', ('rss',), …) is rejected with ValueError too —
-    `memtype not in valid_types` is list membership, decided by `==`; needs the obligation
-    `cfg_good.pctByMembership` (a `hasattr`-based validation would raise TypeError, and would let
-    `count`, `index`, `_fields`, `__len__`, … through: seeded C13-4). -/
+/-- CHARACTERISATION beyond the statement (which speaks of field NAMES, i.e. `str`), and no more
+    than the obligation `cfg_good.pctByMembership` restated on the model's `.other` argument: an
+    argument that is not a `str` (None, 3, b'rss', ('rss',), … — objects whose `==` with a `str`
+    is False; a `str` subclass or an object with a custom `__eq__` is NOT covered) is rejected with
+    ValueError, because `memtype not in valid_types` is list membership decided by `==` (a
+    `hasattr`-based validation would raise TypeError, and would let `count`, `index`, `_fields`,
+    `__len__`, … through: seeded C13-4). The content is in the harness (11 such arguments on the
+    real code), not in this proof. -/
 theorem C13_nonstr_memtype_ValueError (info full : Res (List Nat)) (cached : Option Int) (vm : Int) :
     memoryPercentArg cfg .other info full cached vm = .error .valueError := by
   simp [memoryPercentArg, cfg_good.pctByMembership]
@@ -174,7 +316,7 @@ theorem C13_memtype_str (s : String) (info full : Res (List Nat)) (cached : Opti
 theorem C13_rollup_fallback (pagesize : Nat) (smaps statm : Bytes) (r : FileRes) :
     memoryFullInfo cfg true pagesize .enoent smaps statm = memoryFullInfo cfg false pagesize r smaps statm
     ∧ memoryFullInfo cfg true pagesize .esrch smaps statm = memoryFullInfo cfg false pagesize r smaps statm := by
-  constructor <;> simp [memoryFullInfo, cfg_good.rollupWrapped]
+  constructor <;> simp [memoryFullInfo, cfg_good.rollupWrapped, cfg_good.fallbackEnoent, cfg_good.fallbackEsrch]
 
 /-- what-if: a `_parse_smaps_rollup` decorated with `@wrap_exceptions` (the other helpers are) -/
 def wrappedCfg : Cfg := { cfg with rollupWrapped := true }
@@ -189,7 +331,8 @@ theorem C13_rollup_wrapped_counterexample :
           = some [4096, 4096, 0, 0, 0, 0, 0, 0, 0, 0] := by
   refine ⟨fun _ _ _ => rfl, by decide⟩
 
-/-- **C13_full_info_sums.** From the per-mapping listing: uss = 1024·Σ(Private_Clean +
+/-- **C13_full_info_sums.** WHEN THE PER-MAPPING LISTING IS THE SOURCE (no roll-up support; with
+    `C13_rollup_fallback` also ENOENT / ESRCH on the roll-up): uss = 1024·Σ(Private_Clean +
     Private_Dirty + Private_Hugetlb), pss = 1024·Σ Pss, swap = 1024·Σ Swap, over all mappings;
     the basic fields are those of `memory_info()`. -/
 theorem C13_full_info_sums (pagesize : Nat) (st : Statm) (ms : List Mapping) (rollup : FileRes)
@@ -198,8 +341,10 @@ theorem C13_full_info_sums (pagesize : Nat) (st : Statm) (ms : List Mapping) (ro
       = .ok (specFullInfo pagesize st ms) :=
   full_info_smaps cfg cfg_good pagesize st ms rollup hne hwf
 
-/-- **C13_rollup_agrees.** The roll-up file (field-wise sums of the kB keys) gives the same
-    three figures as the per-mapping listing. -/
+/-- **C13_rollup_agrees.** An IDEALISED roll-up file — the field-wise sums of the kB keys, which
+    is what a kernel without sub-kB PSS precision would print — gives the same three figures as
+    the per-mapping listing. For the roll-up a real kernel prints see
+    `C13_full_info_two_sources` / `C13_full_info_same_source_counterexample`. -/
 theorem C13_rollup_agrees (ms : List Mapping) (hne : ms ≠ []) (hwf : wfSmaps false ms = true) :
     parseSmapsRollup cfg (renderRollup (rollupKeysOf ms) ms) = parseSmaps cfg (renderSmaps ms)
       ∧ parseSmaps cfg (renderSmaps ms) = .ok (specFull ms) := by
@@ -229,23 +374,160 @@ theorem C13_full_info_from_rollup (pagesize : Nat) (st : Statm) (lo hi : Nat) (k
       = .ok (specMemInfo pagesize st
           ++ [(specFullRollup kvs).uss, (specFullRollup kvs).pss, (specFullRollup kvs).swap]) := by
   unfold memoryFullInfo
-  simp only [if_true]
+  simp only [if_true, cfg_good.basicFirst, Bool.false_eq_true, if_false]
   rw [C13_rollup_record lo hi kvs hw, (C13_statm pagesize st).1]
 
-/-- **C13_rollup_subkb_bound.** CHARACTERISATION of the kernel side (beyond the statement's "the
-    same whichever source"): the kernel accumulates PSS with sub-kB precision (`fine`: per-mapping
-    PSS in units of 2⁻¹² byte), prints every mapping's `Pss:` truncated to kB and the roll-up's
-    `Pss:` truncated once. So the roll-up's figure is never below the sum of the per-mapping
-    figures and exceeds it by less than one kB per mapping — "reports higher PSS than */smaps",
-    as the comment in `_parse_smaps_rollup` observes. psutil reports either file faithfully
-    (`C13_rollup_record`, `C13_full_info_sums`); they coincide when the roll-up is the field-wise
-    sum (`C13_rollup_agrees`). -/
-theorem C13_rollup_subkb_bound (fine : List Nat) :
+/-- **C13_truncate_once_vs_each.** Pure arithmetic on a list of naturals (`fine`: per-mapping PSS
+    in units of 2⁻¹² byte): truncating every summand to kB and adding (`pssListed`) never exceeds
+    truncating the sum once (`pssRolled`), and falls short of it by at most n − 1. It becomes a
+    statement about psutil's OUTPUTS on the two files of one process in
+    `C13_full_info_sources_within_n_kB`. -/
+theorem C13_truncate_once_vs_each (fine : List Nat) :
     pssListed fine ≤ pssRolled fine ∧ pssRolled fine ≤ pssListed fine + (fine.length - 1) :=
   ⟨pss_listed_le_rolled fine, pss_rolled_lt fine⟩
 
 example : pssListed [pssUnit + 1, 2 * pssUnit - 1, pssUnit / 2] = 2 ∧ pssRolled [pssUnit + 1, 2 * pssUnit - 1, pssUnit / 2] = 3 := by
   decide
+
+
+/-! ## ONE process, BOTH sources — the kernel's fine-grained PSS
+
+  `FineMapping`: a mapping + its proportional share in the kernel's unit (2⁻¹² byte).
+  `renderSmapsFine` prints every mapping's `Pss:` truncated to kB; `renderRollupFine` prints the
+  field-wise sums of the page-granular keys and ONE `Pss:` line = the fine sum truncated once
+  (`fs/proc/task_mmu.c`: one `mem_size_stats` per mapping vs one for the whole roll-up). -/
+
+/-- **C13_full_info_two_sources.** For EVERY non-empty list of well-formed mappings with fine-grained
+    PSS whose listing prints `Pss:`: `memory_full_info()` read from the per-mapping listing and read
+    from the roll-up of the SAME process return the same basic fields, the same uss, the same swap;
+    pss is 1024·Σᵢ⌊fineᵢ/2²²⌋ from the listing and 1024·⌊(Σᵢ fineᵢ)/2²²⌋ from the roll-up. -/
+theorem C13_full_info_two_sources (pagesize : Nat) (st : Statm) (fms : List FineMapping) (r : FileRes)
+    (hne : fms ≠ []) (hwf : wfSmaps false (shownAll fms) = true) (hp : bPss ∈ keysOf (shownAll fms)) :
+    memoryFullInfo cfg false pagesize r (renderSmapsFine fms) (renderStatm st)
+        = .ok (specMemInfo pagesize st ++ [(specFull (shownAll fms)).uss, 1024 * pssListed (fines fms),
+            (specFull (shownAll fms)).swap])
+      ∧ memoryFullInfo cfg true pagesize (.data (renderRollupFine fms)) (renderSmapsFine fms) (renderStatm st)
+        = .ok (specMemInfo pagesize st ++ [(specFull (shownAll fms)).uss, 1024 * pssRolled (fines fms),
+            (specFull (shownAll fms)).swap]) := by
+  obtain ⟨hwr, hroll, hlist⟩ := fine_two_sources cfg cfg_good fms hne hwf hp
+  have hne' : shownAll fms ≠ [] := fun e => hne (List.map_eq_nil_iff.mp e)
+  constructor
+  · have h := C13_full_info_sums pagesize st (shownAll fms) r hne' hwf
+    unfold renderSmapsFine
+    rw [h]
+    unfold specFullInfo
+    simp only [hlist]
+  · have h := C13_full_info_from_rollup pagesize st
+      (((shownAll fms).head?.map (·.lo)).getD 0) (((shownAll fms).getLast?.map (·.hi)).getD 0)
+      (rollupKVsFine fms) hwr (renderSmapsFine fms)
+    unfold renderRollupFine
+    rw [h, hroll]
+
+/-- **C13_full_info_sources_within_n_kB.** … so the two answers differ in pss only, the roll-up's
+    is never the smaller one, and the difference is below 1 kB per mapping: < n·1024 bytes
+    (at most (n − 1)·1024). This is the kernel's arithmetic, reported faithfully by psutil from
+    either file — a CHARACTERISATION with a stated limit, not a defect of psutil. -/
+theorem C13_full_info_sources_within_n_kB (pagesize : Nat) (st : Statm) (fms : List FineMapping)
+    (r : FileRes) (hne : fms ≠ []) (hwf : wfSmaps false (shownAll fms) = true)
+    (hp : bPss ∈ keysOf (shownAll fms)) :
+    ∃ basic uss swap pssL pssR,
+      memoryFullInfo cfg false pagesize r (renderSmapsFine fms) (renderStatm st) = .ok (basic ++ [uss, pssL, swap])
+        ∧ memoryFullInfo cfg true pagesize (.data (renderRollupFine fms)) (renderSmapsFine fms) (renderStatm st)
+            = .ok (basic ++ [uss, pssR, swap])
+        ∧ pssL ≤ pssR ∧ pssR ≤ pssL + 1024 * (fms.length - 1) := by
+  obtain ⟨h1, h2⟩ := C13_full_info_two_sources pagesize st fms r hne hwf hp
+  refine ⟨_, _, _, _, _, h1, h2, ?_, ?_⟩
+  · exact Nat.mul_le_mul_left _ (C13_truncate_once_vs_each (fines fms)).1
+  · have := (C13_truncate_once_vs_each (fines fms)).2
+    have hl : (fines fms).length = fms.length := by simp [fines]
+    rw [hl] at this
+    rw [← Nat.mul_add]
+    exact Nat.mul_le_mul_left _ this
+
+/-- the clause "the same whether the roll-up file or the per-mapping listing is the source", read
+    literally over the files a real kernel prints for one process -/
+def C13_full_info_same_source_Full : Prop :=
+  ∀ (pagesize : Nat) (st : Statm) (fms : List FineMapping), fms ≠ [] → wfSmaps false (shownAll fms) = true →
+    memoryFullInfo cfg true pagesize (.data (renderRollupFine fms)) (renderSmapsFine fms) (renderStatm st)
+      = memoryFullInfo cfg false pagesize .enoent (renderSmapsFine fms) (renderStatm st)
+
+/-- two anonymous mappings sharing one page with one other process each: half a kB of PSS each -/
+def mHalf (lo : Nat) : FineMapping :=
+  { m := { lo := lo, hi := lo + 4096, r := true, w := false, x := false, shared := false, off := 0, maj := 0,
+           min := 0, ino := 0, path := none, deleted := false, kv := [⟨bPss, 0, true⟩], flags := none }
+    fine := pssUnit / 2 }
+
+example : wfSmaps false (shownAll [mHalf 4096, mHalf 8192]) = true ∧ bPss ∈ keysOf (shownAll [mHalf 4096, mHalf 8192])
+    ∧ pssListed (fines [mHalf 4096, mHalf 8192]) = 0 ∧ pssRolled (fines [mHalf 4096, mHalf 8192]) = 1 := by
+  refine ⟨by decide, by decide, by decide, by decide⟩
+
+/-- **C13_full_info_same_source_counterexample.** Read literally the clause is FALSE on real kernel
+    content: two mappings with half a kB of PSS each are listed as `Pss: 0 kB` twice and rolled up
+    as `Pss: 1 kB` — `memory_full_info().pss` is 0 from the listing and 1024 from the roll-up.
+    (`C13_full_info_sources_within_n_kB` is the statement that holds; `C13_rollup_agrees` the
+    reading under which the clause is true.) -/
+theorem C13_full_info_same_source_counterexample : ¬ C13_full_info_same_source_Full := by
+  intro h
+  have hw : wfSmaps false (shownAll [mHalf 4096, mHalf 8192]) = true := by decide
+  have h0 := h 4096 ⟨0, 0, 0, 0, 0, 0, 0⟩ [mHalf 4096, mHalf 8192] (by simp) hw
+  obtain ⟨h1, h2⟩ := C13_full_info_two_sources 4096 ⟨0, 0, 0, 0, 0, 0, 0⟩ [mHalf 4096, mHalf 8192] .enoent (by simp) hw (by decide)
+  rw [h1, h2] at h0
+  have h3 := Except.ok.inj h0
+  have h4 := List.append_cancel_left h3
+  have hL : pssListed (fines [mHalf 4096, mHalf 8192]) = 0 := by decide
+  have hR : pssRolled (fines [mHalf 4096, mHalf 8192]) = 1 := by decide
+  rw [hL, hR] at h4
+  simp at h4
+
+/-! ## a process without mappings (the quantifier says 0..n) -/
+
+/-- **C13_full_info_empty.** No mappings (kernel threads, zombies: an empty smaps file): uss = pss =
+    swap = 0 after the basic fields — from the listing, and (`C13_rollup_fallback`) when the roll-up
+    answers ENOENT / ESRCH, which is what it does for such processes. -/
+theorem C13_full_info_empty (pagesize : Nat) (st : Statm) (r : FileRes) :
+    memoryFullInfo cfg false pagesize r (renderSmaps []) (renderStatm st) = .ok (specFullInfo pagesize st [])
+      ∧ memoryFullInfo cfg true pagesize .enoent (renderSmaps []) (renderStatm st) = .ok (specFullInfo pagesize st [])
+      ∧ memoryFullInfo cfg true pagesize .esrch (renderSmaps []) (renderStatm st) = .ok (specFullInfo pagesize st []) := by
+  have hp : (parseSmaps cfg (renderSmaps [])).toOption = some ⟨0, 0, 0⟩ := by decide
+  have h0 : memoryFullInfo cfg false pagesize r (renderSmaps []) (renderStatm st) = .ok (specFullInfo pagesize st []) := by
+    unfold memoryFullInfo
+    simp only [Bool.false_eq_true, if_false, cfg_good.basicFirst]
+    rw [(C13_statm pagesize st).1]
+    cases hq : parseSmaps cfg (renderSmaps []) with
+    | error e => rw [hq] at hp; cases hp
+    | ok f =>
+      rw [hq] at hp
+      have : f = ⟨0, 0, 0⟩ := Option.some.inj hp
+      subst this
+      rfl
+  refine ⟨h0, ?_, ?_⟩
+  · rw [(C13_rollup_fallback pagesize _ _ r).1]; exact h0
+  · rw [(C13_rollup_fallback pagesize _ _ r).2]; exact h0
+
+/-! ## the class body: which methods exist for which kernel -/
+
+/-- **C13_class_level.** The class body of `_pslinux.Process` is evaluated once, with the flags
+    `HAS_PROC_SMAPS_ROLLUP` / `HAS_PROC_SMAPS` of import time. Whenever `/proc/pid/smaps` exists —
+    roll-up or not ("roll-up file present or absent") — `memory_full_info` is the real thing (with
+    the import-time roll-up flag) and `memory_maps` is defined; with neither file
+    `memory_full_info` is `memory_info` (documented: "on platforms where extended info is not
+    available this is an alias"). Needs `cfg_good.fullGuard / fullElseIsInfo / mapsGuard`. -/
+theorem C13_class_level (importRollup : Bool) (pagesize : Nat) (rollup : FileRes) (smaps statm : Bytes) :
+    memoryFullInfoCls cfg importRollup true pagesize rollup smaps statm
+        = memoryFullInfo cfg importRollup pagesize rollup smaps statm
+      ∧ memoryMapsDefined cfg importRollup true = true
+      ∧ memoryFullInfoCls cfg false false pagesize rollup smaps statm = memoryInfo cfg pagesize statm
+      ∧ memoryMapsDefined cfg importRollup false = false := by
+  simp [memoryFullInfoCls, memoryMapsDefined, cfg_good.fullGuard, cfg_good.fullElseIsInfo, cfg_good.mapsGuard, Guard.holds]
+
+/-- what-if: `if HAS_PROC_SMAPS_ROLLUP and HAS_PROC_SMAPS:` -/
+def andGuardCfg : Cfg := { cfg with fullGuard := .rollupAndSmaps }
+
+/-- … then on every kernel before 4.14 (smaps, no roll-up) `memory_full_info` silently IS
+    `memory_info`: no uss / pss / swap — clause 2 is false for that code whatever the mappings. -/
+theorem C13_class_level_and_guard_counterexample (pagesize : Nat) (rollup : FileRes) (smaps statm : Bytes) :
+    memoryFullInfoCls andGuardCfg false true pagesize rollup smaps statm = memoryInfo andGuardCfg pagesize statm := by
+  simp [memoryFullInfoCls, andGuardCfg, cfg_good.fullElseIsInfo, Guard.holds]
 
 /-! ## the three regexes of `_parse_smaps`: `findall` over the whole text vs the line-anchored reading -/
 
@@ -475,7 +757,7 @@ theorem C13_percent_cached_total (memtype : String) (info full : Res (List Nat))
       = (answer (pctValue cfg memtype info full) t, ⟨some t⟩) :=
   pct_cache_wins cfg pcfg pcfg_good memtype info full meminfo t ht
 
-/-- **C13_percent_history.** Any interleaving of `virtual_memory()` and `memory_percent(…)` calls
+/-- **C13_percent_history.** MODEL-LEVEL (reference `runFixed` built from `pctValue` / `pctOf`). Any interleaving of `virtual_memory()` and `memory_percent(…)` calls
     and rewrites of `/proc/meminfo` during which the kernel's total stays `T`: every answer is
     relative to `T` (cache empty or already `T` at the start). -/
 theorem C13_percent_history (info full : Res (List Nat)) (T : Nat) (ops : List POp) (mi : Bytes)
@@ -491,7 +773,9 @@ theorem C13_bad_memtype_state (memtype : String) (info full : Res (List Nat)) (m
     memoryPercentS cfg pcfg memtype info full meminfo s = (.error .valueError, s) :=
   pct_value_error cfg pcfg memtype info full meminfo s _ (pctValue_bad cfg cfg_good memtype info full h)
 
-/-- **C13_percent_last_read.** The property's reading in the presence of the module cache, for
+/-- **C13_percent_last_read.** MODEL-LEVEL lemma (`runLastRead` is built from the model's `pctValue`
+    / `truthy` / `pctOf` and takes the model's `vmTotal`: it restates the model with the two cache
+    flags resolved; the spec-facing statement is `C13_percent_history_records`). For
     EVERY history of `/proc/meminfo` rewrites, `virtual_memory()` and `memory_percent(t)` calls:
     `memory_percent(t)` = 100 · field / (the total physical memory psutil last read — by the
     latest successful `virtual_memory()`, or by the first `memory_percent()` when none was made;
@@ -521,6 +805,36 @@ theorem C13_percent_constant_total (info full : Res (List Nat)) (ls0 : List KV)
   rw [h1]
   exact runCurrent_fixed cfg pcfg info full (memTotal ls0) ops (renderMeminfo ls0)
     (C13_meminfo_total ls0 h0) hb
+
+
+/-! ## histories, against the spec written over RECORDS -/
+
+/-- **C13_percent_history_records.** For EVERY history of `/proc/meminfo` contents (as records, each
+    well-formed), `virtual_memory()` and `memory_percent(t)` calls on a process given by its statm
+    record and its mappings (per-mapping listing as the source), starting from an empty cache: the
+    model run over the RENDERED texts answers exactly `specHist` — the reference written in
+    Spec/C13.lean from `specPercent`, `memTotal` and the promised field values
+    (`specFullInfo`), with no model function in it: 100·field / (the `MemTotal` psutil last read),
+    ValueError for an unknown field name or a total of 0. -/
+theorem C13_percent_history_records (pagesize : Nat) (st : Statm) (ms : List Mapping) (rollup : FileRes)
+    (hne : ms ≠ []) (hwf : wfSmaps false ms = true) (ls0 : List KV) (h0 : wfMeminfo ls0 = true)
+    (ops : List SOp) (hops : ∀ ls, SOp.setMeminfo ls ∈ ops → wfMeminfo ls = true) :
+    runP cfg pcfg (memoryInfo cfg pagesize (renderStatm st))
+        (memoryFullInfo cfg false pagesize rollup (renderSmaps ms) (renderStatm st))
+        (ops.map SOp.toP) (renderMeminfo ls0) ⟨none⟩
+      = (specHist (fun mt => (pfullmemNames.zip (specFullInfo pagesize st ms)).lookup mt) ops ls0 none).map SOut.toP := by
+  rw [(C13_statm pagesize st).1, C13_full_info_sums pagesize st ms rollup hne hwf]
+  exact runP_specHist cfg cfg_good pcfg pcfg_good (specMemInfo pagesize st) (specFull ms).uss (specFull ms).pss
+    (specFull ms).swap rfl ops hops ls0 h0 none
+
+/-- non-vacuity + the cache made visible on the spec side: total 4 kB, `memory_percent('rss')`,
+    total 8 kB, `memory_percent('rss')`, `virtual_memory()`, `memory_percent('rss')` → 100 %, 100 %
+    (total last read), 8192, 50 % -/
+example : specHist (fun mt => if mt = "rss" then some 4096 else none)
+      [.pct "rss", .setMeminfo [⟨bMemTotal, 8, true⟩, ⟨bMemFree, 1, true⟩], .pct "rss", .vm, .pct "rss", .pct "bogus"]
+      [⟨bMemTotal, 4, true⟩, ⟨bMemFree, 1, true⟩] none
+    = [.pct 100, .none, .pct 100, .total 8192, .pct 50, .valueError] := by
+  decide +kernel
 
 /-- CHARACTERISATION of the cache, beyond the property's quantifier (the property quantifies over
     statm / smaps contents, not over a `MemTotal` that changes between calls) and NOT a defect:
